@@ -15,7 +15,8 @@ RULE = ('Hypothesis-drawn lists of trees (script-like, with a set-logic/set-info
         'mutators build: identity keys on pairwise non-nested positions '
         '(replacement or deletion, incl. last child, top-level items, the root) or '
         'structural keys (leaf or subtree, 1-3 at once, replacements that contain '
-        'their own key or another key) + optional fresh declarations.  Oracle: '
+        'their own key or another key) + optional fresh declarations; identity keys on '
+        'inputs that still share nodes (exactly one carrying position changes).  Oracle: '
         'recursive nested-list model; base deep-equal to its snapshot (structure '
         'and ids); untouched subtrees are the same objects; declarations right '
         'after the prefix iff something changed.  A RuleBasedStateMachine keeps a '
@@ -106,6 +107,60 @@ def struct_case(draw):
     return dict(kind='struct', single=single, trees=trees, pairs=pairs, fresh=fresh)
 
 
+@st.composite
+def dag_case(draw):
+    """Identity keys on an input that still shares nodes (the state ddmin is
+    in between two successes of one pass): exactly ONE of the positions carrying
+    the id is replaced."""
+    plains, dec = draw(gen_sexpr.dag_plan(4, 10))
+    nkeys = draw(st.integers(1, 2))
+    picks = draw(st.lists(st.integers(0, 10**6), min_size=nkeys, max_size=nkeys))
+    repls = [draw(st.one_of(st.none(), repl_tree)) for _ in range(nkeys)]
+    return dict(kind='ids-dag', single=False, trees=plains, dec=dec, picks=picks, repls=repls)
+
+
+def run_dag_case(dd, case, acc):
+    nodes = dd.nodes
+    base, kinds = gen_sexpr.build_dag(dd, case['trees'], case['dec'])
+    trees = case['trees']
+    # positions by id
+    pos = {}
+    for p in all_paths(trees):
+        pos.setdefault(model.get_path(base, p).id, []).append(p)
+    shared = sorted(i for i, ps in pos.items() if len(ps) >= 2)
+    ids = sorted(pos)
+    chosen = []
+    for k in case['picks']:
+        pool = shared if shared and k % 3 else ids
+        i = pool[k % len(pool)]
+        # keys must designate pairwise non-nested nodes (all their positions)
+        if all(not (p[:len(q)] == q or q[:len(p)] == p) for c in chosen for p in pos[i] for q in pos[c]) and i not in chosen:
+            chosen.append(i)
+    if not chosen:
+        return False, ['ids-dag', 'no-key']
+    substs = {}
+    options = [dict()]
+    for i, r in zip(chosen, case['repls']):
+        substs[i] = None if r is None else model.to_node(dd, r)
+        options = [{**o, p: (model.DELETE if r is None else r)} for o in options for p in pos[i]]
+    expected = [model.subst_paths(trees, o) for o in options]
+    snap = snapshot(dd, base)
+    try:
+        with guard.cpu_limit(CPU):
+            got = model.to_plain(dd.mutator_utils.apply_simp(base, dd.mutator_utils.Simplification(dict(substs), [])))
+    except guard.CpuTimeout:
+        acc.violation('hang/substitute', f'{case!r}', case)
+        return True, ['ids-dag']
+    if got not in expected:
+        acc.violation('result-differs/ids-on-shared-node',
+                      f'an identity key carried by {[len(pos[i]) for i in chosen]} positions must change exactly one of '
+                      f'them: case={case!r} got={got!r} expected one of {expected[:3]!r}', case)
+    if snapshot(dd, base) != snap:
+        acc.violation('base-mutated', f'{case!r}', case)
+    sh = any(len(pos[i]) >= 2 for i in chosen)
+    return sh, ['ids-dag'] + (['key-on-shared-node'] if sh else [])
+
+
 def snapshot(dd, ns):
     return [(n.id, model.to_plain(n)) for n in dd.nodes.dfs(ns)]
 
@@ -151,6 +206,8 @@ def designated_struct(dd, base_nodes, keys_plain):
 
 
 def run_case(dd, case, acc):
+    if case['kind'] == 'ids-dag':
+        return run_dag_case(dd, case, acc)
     nodes = dd.nodes
     Simp = dd.mutator_utils.Simplification
     trees = case['trees']
@@ -399,7 +456,7 @@ def shard(ctx, acc):
         nt, classes = run_case(dd, case, acc)
         acc.case(case, nontrivial=nt, classes=classes)
 
-    strat = st.one_of(id_case(), struct_case())
+    strat = st.one_of(id_case(), struct_case(), dag_case())
     runner.hyp_run(ctx, strat, body, ctx.share(total))
 
     # stateful part
